@@ -156,7 +156,36 @@ SEQUENCE_PROGRAM = r'''
 import json, os, sys
 from catparser.__main__ import main
 repo, scratch, order = sys.argv[1], sys.argv[2], sys.argv[3].split(',')
+# a schema the generator cannot format (a struct holding only a constant), after an abstract struct and an enum were formatted:
+# a run that ABORTS part-way must not leave anything behind for the next run either
+ABORTING = """enum Kind : uint8
+\tNONE = 0
+\tSOME = 1
+
+@size(size)
+@discriminator(kind)
+@initializes(kind, ENTITY_KIND)
+abstract struct Entity
+\tsize = uint32
+\tkind = Kind
+
+struct Marker
+\tMARKER_VERSION = make_const(uint8, 1)
+"""
 for index, network in enumerate(order):
+	if 'aborting' == network:
+		directory = os.path.join(scratch, f'{index}-aborting-schema')
+		os.makedirs(directory)
+		with open(os.path.join(directory, 'bad.cats'), 'wt', encoding='utf8') as outfile:
+			outfile.write(ABORTING)
+		sys.argv = ['catparser', '--schema', os.path.join(directory, 'bad.cats'), '--include', directory,
+			'--output', os.path.join(scratch, f'{index}-aborting'), '--quiet', '--generator', 'generator.Generator']
+		try:
+			main()
+			print('aborting-run: completed')
+		except BaseException as ex:
+			print('aborting-run:', type(ex).__name__)
+		continue
 	schemas = os.path.join(repo, 'catbuffer', 'schemas', network)
 	sys.argv = ['catparser', '--schema', os.path.join(schemas, 'all_generated.cats'), '--include', schemas,
 		'--output', os.path.join(scratch, f'{index}-{network}'), '--quiet', '--generator', 'generator.Generator']
@@ -167,7 +196,7 @@ for index, network in enumerate(order):
 def run_sequences(ctx, scratch, shipped_modules):
 	"""Several generator runs in ONE interpreter (the parser and the generator used as a library, one schema set after the
 	other): what an earlier run left in the process - caches on classes or modules - must not leak into a later one."""
-	orders = [['nem', 'symbol'], ['symbol', 'nem'], ['nem', 'symbol', 'nem'], ['symbol', 'symbol']]
+	orders = [['nem', 'symbol'], ['symbol', 'nem'], ['nem', 'symbol', 'nem'], ['symbol', 'symbol'], ['aborting', 'nem', 'symbol'], ['symbol', 'aborting', 'symbol']]
 	if ctx.thorough:
 		orders += [['symbol', 'nem', 'symbol'], ['nem', 'nem', 'symbol', 'symbol']]
 	for number, order in enumerate(orders):
@@ -187,6 +216,9 @@ def run_sequences(ctx, scratch, shipped_modules):
 			ctx.fail('property', f'generator runs {order} in one interpreter fail: exit {proc.returncode}', dict(config, stderr=proc.stderr[-800:]))
 			continue
 		for index, network in enumerate(order):
+			if 'aborting' == network:
+				ctx.count('runs:aborted-generation:' + ('raised' if 'aborting-run: completed' not in proc.stdout else 'completed'))
+				continue
 			with open(os.path.join(target, f'{index}-{network}', '__init__.py'), 'rb') as infile:
 				produced = infile.read()
 			if produced != shipped_modules[network]:
